@@ -151,19 +151,35 @@ Definition sync_verdict (pl : bool) (rd bt ch p brk : bool) (t : task) (o : sobs
   let changed := ch || existsb is_change l in
   if held_after && negb brk && existsb (fun x => is_reload x || is_api x) l then 1
   else if existsb is_failed_reload l && negb rep then
-         (* whose reload failed: the handler's (before updateAllConfigs rewrites the main config) or updateAllConfigs' own *)
+         (* whose reload failed?  The log of a sync is: handler part, then (if updateAllConfigs ran) the main
+            config write and everything after it, or (batch ended through ReloadForBatchUpdates) the closing
+            reload, which is then the last Reload event.  Codes:
+            8 the handler's own reload, and the handler has an object to report on (6: endpointslice handler);
+            9 updateAllConfigs' reload, and a resource or ConfigMap+GlobalConfiguration exists;
+            5 the reload that closes a batch, and a resource exists (it concerns all of them);
+            0 nothing exists to report on (deleted object, no resource left) *)
          (let is_main := fun x => match x with EWrite FMain _ _ => true | _ => false end in
           let fix split_main (l : list ev) (acc : bool) : bool * bool :=   (* (failed before main, main seen) *)
             match l with
             | [] => (acc, false)
             | x :: r => if is_main x then (acc, true) else split_main r (acc || is_failed_reload x)
             end in
+          (* (a failed reload occurs before the last Reload event, the last Reload event failed) *)
+          let fix split_last (l : list ev) (seen_failed last_failed : bool) : bool * bool :=
+            match l with
+            | [] => (seen_failed, last_failed)
+            | x :: r => if is_reload x then split_last r (seen_failed || last_failed) (is_failed_reload x)
+                        else split_last r seen_failed last_failed
+            end in
           let '(fpre, has_main) := split_main l false in
-          let by_task := if is_endp_task (t_kind t) then 6 else if t_reports t then 5 else 0 in
-          (* the reload that ends a batch: every resource is concerned; with none left there is nothing to report on *)
+          let by_task := if is_endp_task (t_kind t) then 6 else if t_reports t then 8 else 0 in
           let at_end := match t_all t with [] => 0 | _ => 5 end in
-          if fpre then (if has_main then by_task else if bt && negb bt' then at_end else by_task)
-          else (if t_all_reports t then 5 else 0))
+          if has_main then
+            (if fpre then by_task else if t_all_reports t then 9 else 0)
+          else if bt && negb bt' then
+            (let '(early, last) := split_last l false false in
+             if last && negb (at_end =? 0) then at_end else if early then by_task else 0)
+          else by_task)
   else if bt && negb bt' && changed && negb (last_change_reloaded l) then 2
   else if rd && negb bt && negb bt' && existsb is_change l && negb (last_change_reloaded l)
           && negb (pl && is_endp_task (t_kind t) && forallb api_ok l && existsb is_api l) then 7
